@@ -10,6 +10,8 @@ Line-protocol driver for C01 (and, with `crash` / `restart`, C08). Protocol (har
   crash                      drop the volatile state                                        -> state line
   crashdeliver <id> <k>      serialised delivery of <id> killed just before its k-th RocksDB commit
                              (k ≥ 1): the persisted state at that point, volatile state dropped   -> state line
+  expire                     the orphan-expiry timer fires (`clean_expired_orphans`); the callbacks of the
+                             removed orphans are dropped                      -> state line ++ " pool=<ids>"
   commits                    number of RocksDB commits the model has performed so far          -> <n>
   restart <maxEpochLen> <order|->   crash, then re-deliver `scanList` (InitLoadUnverified)  -> state line
   scan <maxEpochLen> <order|->      the scan list only                                      -> ids
@@ -118,6 +120,12 @@ def step (d : St) (ts : List String) : St × String :=
       | some m => let c := crash m; ({ d with st := some c }, stateLine d.decls c [])
       | none => (d, "bad-op")
     | _, _ => (d, "bad-op")
+  | ["expire"] =>
+    let s0 := getState d
+    let s1 := expire (treeOf d.decls) s0
+    let gone : Out := (s0.pool.filter fun c => !s1.pool.contains c).map fun c => (c, Verdict.dropped)
+    let pool := showNatList (s1.pool.mergeSort (fun a b => a ≤ b))
+    ({ d with st := some s1 }, stateLine d.decls s1 gone ++ s!" pool={pool}")
   | ["commits"] => (d, s!"{(getState d).commits}")
   | ["crash"] =>
     let s := crash (getState d)
